@@ -69,6 +69,9 @@ type GenesisSpec struct {
 	// ExtraBalances are balances of addresses that need no auth account entry
 	// (module accounts that are materialised lazily).
 	ExtraBalances []banktypes.Balance
+	// VestingModuleSurplus is added to the balance the vesting module account is funded with
+	// (normally exactly the sum locked in the genesis pools).
+	VestingModuleSurplus int64
 	// OmitICA leaves the interchainaccounts section out (needed by C16).
 	OmitICA bool
 	// Mutate allows last-minute edits of the raw genesis map.
@@ -205,6 +208,7 @@ func BuildGenesis(app *c4eapp.App, enc appparams.EncodingConfig, spec GenesisSpe
 			locked = locked.Add(p.GetCurrentlyLocked())
 		}
 	}
+	locked = locked.AddRaw(spec.VestingModuleSurplus)
 	if locked.IsPositive() {
 		balances = append(balances, banktypes.Balance{
 			Address: authtypes.NewModuleAddress(vesttypes.ModuleName).String(),
